@@ -609,6 +609,20 @@ def ids(ctx):
             out.append(Inst("IDS", "PROPERTY_ID:%s" % nm, want == c["val"], "src/core/properties.rs", "%s::PROPERTY_ID = %s" % (nm, c["val"]), "%s" % want))
     # wire types: Property::try_decode arm -> decoded primitive
     pd = ctx.body(r"core::properties::Property as core::utils::TryDecode>::try_decode$")
+
+    def _kept(p_):
+        f_ = ctx.facts.fn(p_)
+        if f_ is None or f_["kind"] != "fn" or f_.get("impl_trait"):
+            return True
+        # private plumbing of the property decoder (inherent methods of Property, free functions of its module) is
+        # looked at in place
+        if strip_generics(f_.get("impl_self") or "") == "core::properties::Property" and f_.get("vis") != "pub":
+            return False
+        sp = strip_generics(p_)
+        if not f_.get("impl_self") and sp.startswith("core::properties::") and sp.count("::") == 2:
+            return False
+        return True
+    pd = ctx.flat_with(pd, _kept, "ids:Property", normalise=False)
     sw = None
     for i in sorted(pd.reach):
         t = pd.term(i)
@@ -741,4 +755,199 @@ def varint_thresh(ctx):
                     if st["k"] == "assign" and st["lhs"]["l"] == 0 and len(rest) == 1:
                         lens[rest[0]] = lb.fold(st["rv"]["op"]) if st["rv"]["k"] == "use" else None
     out.append(Inst("VARINT-THRESH", "len", lens == {"SingleByte": 1, "TwoByte": 2, "ThreeByte": 3, "FourByte": 4}, lb.site(0), "len() per state: %s" % lens, "1, 2, 3, 4"))
+    return out
+
+
+# ------------------------------------------------------------------------------------ LM-PRIM
+
+_PRIM_SIZE = {"u8": 1, "i8": 1, "bool": 1, "u16": 2, "i16": 2, "u32": 4, "i32": 4, "u64": 8, "i64": 8, "u128": 16}
+_LEN_CALL = re.compile(r"(str::<impl str>::len|core::str::<impl str>::len|slice::<impl \[T\]>::len|Bytes::len|BytesMut::len|Vec::<[^>]*>::len|Vec::len|String::len)$")
+_VIEW_CALL = re.compile(r"(<impl str>::as_bytes|Clone::clone|AsRef::as_ref|Deref::deref|Bytes::as_ref|Borrow::borrow|String::as_str|String::as_bytes|Vec::<[^>]*>::as_slice|Vec::as_slice)$")
+
+
+def _poly_add(a, b, k=1):
+    if a is None or b is None:
+        return None
+    out = dict(a)
+    for t, c in b.items():
+        out[t] = out.get(t, 0) + k * c
+        if out[t] == 0:
+            del out[t]
+    return out
+
+
+def _self_key(body, op, adt):
+    """What an operand denotes in terms of the value being measured / written: the fields of self it derives from and
+    the wrapper type it was put in, if any."""
+    if op.get("k") == "const":
+        return ("const",)
+    fields = sorted({str(a[2]) for a in body.atoms(op) if a[0] == "field" and re.sub(r"<.*$", "", a[1] or "") == adt})
+    whole = any(a[0] == "param" and a[1] == 1 for a in body.atoms(op))
+    return (tuple(fields), "self" if whole and not fields else "")
+
+
+def _pointee_ty(body, op):
+    if op.get("k") == "const":
+        return op.get("ty")
+    t = body.locals[op["pl"]["l"]]["ty"] if not op["pl"]["p"] else None
+    return re.sub(r"^&('\w+ )?(mut )?", "", t) if t else None
+
+
+def _size_term(body, op, adt, depth=0):
+    """Symbolic size (dict term -> coefficient) of a usize operand of a byte_len function, or None."""
+    if depth > 30:
+        return None
+    v = body.fold(op)
+    if v is not None:
+        return {"1": v} if v else {}
+    if op.get("k") == "const":
+        return None
+    pl = op["pl"]
+    proj = [p for p in pl["p"] if p != "deref"]
+    ds = body.whole_defs(pl["l"])
+    if len(ds) != 1:
+        return None
+    d = ds[0]
+    if proj and not (len(proj) == 1 and isinstance(proj[0], dict) and proj[0].get("f") == 0 and d[0] == "stmt" and d[3]["rv"]["k"] == "bin" and d[3]["rv"].get("checked")):
+        return None
+    if d[0] == "stmt":
+        rv = d[3]["rv"]
+        if rv["k"] == "use":
+            return _size_term(body, rv["op"], adt, depth + 1)
+        if rv["k"] == "cast" and rv.get("kind") == "IntToInt":
+            return _size_term(body, rv["op"], adt, depth + 1)
+        if rv["k"] == "bin" and rv["op"] == "Add":
+            return _poly_add(_size_term(body, rv["a"], adt, depth + 1), _size_term(body, rv["b"], adt, depth + 1))
+        if rv["k"] == "bin" and rv["op"] == "Mul":
+            ka, kb = body.fold(rv["a"]), body.fold(rv["b"])
+            if ka is not None:
+                x = _size_term(body, rv["b"], adt, depth + 1)
+                return None if x is None else {t: c * ka for t, c in x.items() if c * ka}
+            if kb is not None:
+                x = _size_term(body, rv["a"], adt, depth + 1)
+                return None if x is None else {t: c * kb for t, c in x.items() if c * kb}
+        return None
+    if d[0] == "call":
+        t = d[2]
+        return _call_size(body, t, adt)
+    return None
+
+
+def _call_size(body, t, adt):
+    c = t.get("callee") or {}
+    nm = c.get("def") or ""
+    res = c.get("resolved") or nm
+    if nm.endswith("mem::size_of"):
+        ty = (c.get("args") or [None])[0]
+        return {"1": _PRIM_SIZE[ty]} if ty in _PRIM_SIZE else None
+    if nm.endswith("mem::size_of_val") and t["ops"]:
+        o = body.origin(t["ops"][0], through_calls=False)
+        ty = None
+        if o[0] == "rv" and o[2]["rv"]["k"] == "ref":
+            ty = body.locals[o[2]["rv"]["pl"]["l"]]["ty"] if not o[2]["rv"]["pl"]["p"] else None
+        ty = ty or _pointee_ty(body, t["ops"][0])
+        return {"1": _PRIM_SIZE[ty]} if ty in _PRIM_SIZE else None
+    if _LEN_CALL.search(res) or _LEN_CALL.search(nm):
+        return {("len", _self_key(body, t["ops"][0], adt)): 1}
+    if nm.endswith("ByteLen::byte_len") and t["ops"]:
+        sty = strip_generics(c.get("self_ty") or "?")
+        if sty in _PRIM_SIZE:
+            return {"1": _PRIM_SIZE[sty]}
+        return {("sz", sty.split("::")[-1], _self_key(body, t["ops"][0], adt)): 1}
+    # anything else that yields a number from the value (chars().count(), ..): an opaque term of its own
+    return {("call", short_ty(strip_generics(res)), tuple(_self_key(body, o, adt) for o in t["ops"])): 1}
+
+
+def _encode_size(body, adt):
+    """Symbolic number of bytes a straight-line encode() appends, or None (branches, unrecognised writes)."""
+    total = {}
+    for i in sorted(body.reach):
+        blk = body.blocks[i]
+        if blk.get("cleanup"):
+            continue
+        t = blk["term"]
+        if t["k"] == "switch":
+            return None
+        if t["k"] != "call":
+            continue
+        c = t.get("callee") or {}
+        nm = c.get("def") or ""
+        res = c.get("resolved") or nm
+        touches_buf = any(o.get("k") != "const" and any(a[0] == "param" and a[1] == 2 for a in body.atoms(o)) for o in t["ops"])
+        if not touches_buf:
+            continue
+        m = re.search(r"BufMut::put_([ui])(\d+)(_le|_ne)?$", nm)
+        if m:
+            total = _poly_add(total, {"1": int(m.group(2)) // 8})
+            continue
+        if re.search(r"(BufMut::put|BufMut::put_slice|BytesMut::extend_from_slice|BufMut::put_bytes)$", nm) and len(t["ops"]) >= 2:
+            if nm.endswith("put_bytes"):
+                return None
+            x = t["ops"][1]
+            for _ in range(6):
+                o = body.origin(x, through_calls=False)
+                if o[0] == "call" and (_VIEW_CALL.search(callee_resolved(o[2]) or "") or _VIEW_CALL.search(callee_name(o[2]) or "")) and o[2]["ops"]:
+                    x = o[2]["ops"][0]
+                    continue
+                break
+            o = body.origin(x, through_calls=False)
+            if o[0] == "call":
+                return None
+            total = _poly_add(total, {("len", _self_key(body, x, adt)): 1})
+            continue
+        if nm.endswith("Encode::encode") and t["ops"]:
+            sty = strip_generics(c.get("self_ty") or "?")
+            if sty in _PRIM_SIZE:
+                total = _poly_add(total, {"1": _PRIM_SIZE[sty]})
+            else:
+                total = _poly_add(total, {("sz", sty.split("::")[-1], _self_key(body, t["ops"][0], adt)): 1})
+            continue
+        return None
+    return total
+
+
+def _fmt_poly(p):
+    def ft(t):
+        if t == "1":
+            return ""
+        if t[0] == "len":
+            return "len(%s)" % (".".join(t[1][0]) or t[1][1] or "?")
+        if t[0] == "sz":
+            return "size(%s %s)" % (t[1], ".".join(t[2][0]) or t[2][1] or "?")
+        return "%s(..)" % t[1]
+    parts = []
+    for t, c in sorted(p.items(), key=lambda kv: str(kv[0])):
+        parts.append(str(c) if t == "1" else ("%s" % ft(t) if c == 1 else "%d*%s" % (c, ft(t))))
+    return " + ".join(parts) or "0"
+
+
+@rule("LM-PRIM", floor=20)
+def lm_prim(ctx):
+    """Length mirror at the level of the primitives: for every type that implements both ByteLen and Encode with a
+    straight-line encoder, the number of bytes encode() appends, as a symbolic sum over the type's fields, equals what
+    byte_len() returns (the packet-level remaining / property lengths are sums of these)."""
+    bl, en = {}, {}
+    for im in ctx.facts.impls:
+        tr = im.get("trait")
+        if not tr:
+            continue
+        key = im.get("self_ty") or im.get("self_adt")
+        fns = [it["def"] for it in im["items"] if it["kind"] == "fn"]
+        if tr["path"] == "core::utils::ByteLen" and fns:
+            bl[key] = fns[0]
+        if tr["path"] == "core::utils::Encode" and fns:
+            en[key] = fns[0]
+    out = []
+    for ty in sorted(set(bl) & set(en)):
+        adt = re.sub(r"<.*$", "", ty)
+        bb, eb = ctx.world.body(bl[ty]), ctx.world.body(en[ty])
+        want = _size_term(bb, {"k": "copy", "pl": {"l": 0, "p": []}}, adt) if len(bb.whole_defs(0)) == 1 and not any(bb.term(x)["k"] == "switch" for x in bb.reach) else None
+        got = _encode_size(eb, adt)
+        if want is None or got is None:
+            continue        # branching or unrecognised arithmetic: not decided here (VarSizeInt: VARINT-THRESH; enums: BITS / IDS)
+        ctx.note(bb)
+        ctx.note(eb)
+        out.append(Inst("LM-PRIM", short_ty(re.sub(r"<'\w+>$", "", ty)), want == got, eb.site(0),
+                        "byte_len() = %s; encode() appends %s" % (_fmt_poly(want), _fmt_poly(got)),
+                        "the measured size is the written size, field by field"))
     return out
